@@ -352,9 +352,20 @@ class Plane:
         """
         plane = self.copy()
 
+        # the support over which amplitude and opd carry data is the plane's mask,
+        # not the set of samples whose value happens to be non-zero (an OPD of
+        # exactly zero - on a nodal line of a tilt or astigmatism term, say - is a
+        # value like any other)
+        if plane._mask.ndim == 2:
+            support = (plane._mask != 0).astype(float)
+        elif plane._mask.ndim == 3:
+            support = (np.sum(plane._mask, axis=0) != 0).astype(float)
+        else:
+            support = None
+
         if plane.amplitude.ndim > 1:
             plane.amplitude = lentil.rescale(plane.amplitude, scale=scale, shape=None,
-                                                mask=None, order=3, mode='nearest',
+                                                mask=support, order=3, mode='nearest',
                                                 unitary=False)/scale
         elif plane._mask.ndim > 1:
             # a scalar amplitude over a sampled mask loses the same factor (each
@@ -362,7 +373,7 @@ class Plane:
             plane.amplitude = plane.amplitude/scale
 
         if plane.opd.ndim > 1:
-            plane.opd = lentil.rescale(plane.opd, scale=scale, shape=None, mask=None,
+            plane.opd = lentil.rescale(plane.opd, scale=scale, shape=None, mask=support,
                                        order=3, mode='nearest', unitary=False)
 
         if plane._mask.ndim == 2:
